@@ -89,6 +89,18 @@ fn random_strategy(tier: Tier) -> BoxedStrategy<OneShot> {
         .boxed()
 }
 
+/// 256 KiB .. 16 MiB: deeper trees than the sweep reaches, on and around chunk / power-of-two /
+/// 16-chunk boundaries (k * 2^j chunks + delta).
+fn large_strategy(_tier: Tier) -> BoxedStrategy<OneShot> {
+    let len = prop_oneof![
+        3 => (8u32..=14, 1usize..=7, crate::gen::select(vec![-1025i64, -1024, -1, 0, 1, 63, 64, 1023, 1024, 1025])).prop_map(|(j, k, d)| ((k << j) * 1024) as i64 + d),
+        2 => ((256usize * 1024)..=(16usize << 20)).prop_map(|l| l as i64),
+        1 => ((256usize)..=(16usize << 10), crate::gen::select(vec![-1i64, 0, 1])).prop_map(|(chunks, d)| (chunks * 1024) as i64 + d),
+    ]
+    .prop_map(|l| core::cmp::min(core::cmp::max(l, 0) as usize, 16usize << 20));
+    (gen::mode3(), len, gen::content()).prop_map(|(mode, len, content)| OneShot { mode, len, content }).boxed()
+}
+
 fn big_strategy(_tier: Tier) -> BoxedStrategy<OneShot> {
     (gen::mode3(), (16usize << 20)..=(64usize << 20), -2i64..=2, gen::content())
         .prop_map(|(mode, len, d, content)| {
@@ -116,6 +128,16 @@ pub fn subs() -> Vec<Box<dyn DynSub>> {
             rule: "proptest: mode x length from the boundary lattice/uniform-small/log-uniform mixture x content kind; non-trivial = len>1024 or keyed/derive mode",
             cases: (60000, 600000),
             strategy: random_strategy,
+            classify,
+            check,
+            known: None,
+            crumb: false,
+        }),
+        Box::new(PropSub::<OneShot> {
+            name: "large",
+            rule: "proptest: 256 KiB - 16 MiB inputs at k*2^j chunks + delta, uniform, and whole chunk counts +-1 (tree depths beyond the sweep); same oracle",
+            cases: (320, 6000),
+            strategy: large_strategy,
             classify,
             check,
             known: None,
